@@ -653,8 +653,10 @@ def check_gyration(case):
     spread = float(np.abs(pos - pos[0]).max())
     T = g["trace"]
     # domain: a cloud with extent; coincident points (R_g = 0) or an extent below 1e-6 of the coordinate
-    # magnitude (centring then loses the digits that carry the shape) are not asserted
-    if not (spread > 1e-6 * float(np.abs(pos).max()) and spread > 1e-100 and T > 0):
+    # magnitude (centring then loses the digits that carry the shape) are not asserted; nor are extents below 1e-60,
+    # where fourth powers of lengths (products of eigenvalues in the anisotropy) underflow -- no property is about
+    # underflow (seed 3 drew two points 1.3e-82 apart: nan on both sides)
+    if not (spread > 1e-6 * float(np.abs(pos).max()) and spread > 1e-60 and T > 0):
         return {"nontrivial": False, "tags": ["degenerate-or-illconditioned", f"d{d}"]}
     out = gyration_tensor(pos.copy())
     require(isinstance(out, (list, tuple)) and len(out) == len(want),
